@@ -120,7 +120,10 @@ def judge(case):
                 # lengths/ranges are restricted to syntactically valid ones": the documented refusal of that mode
                 documented = True
                 continue
-            viol.append({"sig": "solve:" + e.split(":")[0] + ":" + e.split(":", 1)[1], "constraint": obs["text"], "settings": case["settings"],
+            sig = "solve:" + e.split(":")[0] + ":" + e.split(":", 1)[1]
+            if sig.endswith("RuntimeError@k_paths") and _unit_alternative_shadowed(case, obs.get("error_detail", "")):
+                sig += ":unit_alternative_shadowed"
+            viol.append({"sig": sig, "constraint": obs["text"], "settings": case["settings"],
                          "detail": obs.get("error_detail"), "events": ev, "template": case["template"]})
             break
         if e == "tree_after_end":
@@ -138,6 +141,22 @@ def judge(case):
     has_atom = True
     return {"labels": labels, "nontrivial": ncalls >= 2 and has_atom and not documented, "violations": viol, "inconclusive": None,
             "sample": {"constraint": obs["text"], "settings": case["settings"], "events": ev[:14]}}
+
+
+def _unit_alternative_shadowed(case, detail):
+    """the shape behind grammar_graph's 'Child symbols [s] seem to be incorrect for parent <X>': <X> has the
+    one-symbol alternative s and also a one-symbol alternative <Y> where <Y> has the one-symbol alternative s
+    (find_choice_node_for_children then finds two choice nodes and refuses)"""
+    import re
+    m = re.search(r"Child symbols \['(.*)'\] seem to be incorrect for parent (<[^>]*>)", detail or "")
+    if not m:
+        return False
+    s, x = m.group(1), m.group(2)
+    cg = rt.canon(case["grammar"])
+    alts = cg.get(x, [])
+    if [s] not in [list(a) for a in alts]:
+        return False
+    return any(len(a) == 1 and a[0] in cg and [s] in [list(b) for b in cg[a[0]]] for a in alts)
 
 
 def _run_raw(case, text):
